@@ -41,6 +41,7 @@ SInit(old, new, os, oe, ns, ne) ==
    broken |-> FALSE,                 \* a "script" clause failed: cursors are meaningless
    built |-> <<>>,                   \* the new range as rebuilt from the callbacks
    dels |-> 0, inss |-> 0,           \* deleted / inserted item totals
+   rdels |-> 0, rinss |-> 0, reqs |-> 0,  \* the same as reported, whether or not the script is valid
    segs |-> <<>>,                    \* the Equal segments <<o, n, len>>
    calls |-> 0]
 
@@ -82,7 +83,13 @@ SViol(s, e) ==
                [] e.ev = "replace" -> (IF ReplaceOk(s, e) THEN {} ELSE {"script"}))
 
 \* ---------------------------------------------------------------- updates
+EvLen(e, f) == IF f \in DOMAIN e /\ e[f] > 0 THEN e[f] ELSE 0
 Tick(s, e) == [s EXCEPT !.calls = @ + 1,
+                         !.rdels = @ + (CASE e.ev = "delete" -> EvLen(e, "len")
+                                          [] e.ev = "replace" -> EvLen(e, "ol") [] OTHER -> 0),
+                         !.rinss = @ + (CASE e.ev = "insert" -> EvLen(e, "len")
+                                          [] e.ev = "replace" -> EvLen(e, "nl") [] OTHER -> 0),
+                         !.reqs = @ + (IF e.ev = "equal" THEN EvLen(e, "len") ELSE 0),
                          !.failed = @ \/ (IF "err" \in DOMAIN e THEN e.err ELSE FALSE),
                          !.failcall = IF ~s.failed /\ "err" \in DOMAIN e /\ e.err
                                       THEN s.calls ELSE @]
